@@ -85,9 +85,13 @@ def cases(rng, tier):
             vt = spec[0][0] if isinstance(spec[0], list) else spec[0]
             if not (isinstance(vt, type) and (issubclass(vt, Message) or vt is dict)):
                 continue
-            for f in (["dict", "json", "jwt"] if tier != "quick" else [rng.choice(["dict", "json", "jwt"])]):
+            # the form encoding too: a nested message travels as JSON text inside the form value and is decoded exactly once
+            FM = ["dict", "json", "jwt", "urlencoded", "urlencoded"]
+            if spec[3] is None:
+                FM = ["dict", "json", "jwt"]
+            for f in (list(dict.fromkeys(FM)) if tier != "quick" else [rng.choice(FM), FM[-1]] if vt is not dict and rng.random() < 0.5 else [rng.choice(FM)]):
                 out.append({"t": "opq", "cls": qn, "param": pn, "fmt": f, "islist": isinstance(spec[0], list),
-                            "vals": [rng.choice(["Apt=5, 1 Main Street", "a&b", "x y+z", "é=中", "p%3Dq", "k=v&k2=v2"]) for _ in range(3)]})
+                            "vals": [rng.choice(["Apt=5, 1 Main Street", "a&b", "x y+z", "é=中", "p%3Dq", "k=v&k2=v2", "level%2Bmfa", "100%25", "x=%41", "%", "a%zz"]) for _ in range(3)]})
     for _ in range(300 * reps):
         ps = []
         for _ in range(rng.randint(0, 4)):
@@ -148,6 +152,8 @@ def _impl_opq(c):
             back = cls().from_jwt(wire, keyjar=kj, key=keys)
         elif c["fmt"] == "json":
             back = cls().from_json(m.to_json())
+        elif c["fmt"] == "urlencoded":
+            back = cls().from_urlencoded(m.to_urlencoded())
         else:
             back = cls().from_dict(m.to_dict())
     except Exception as e:
@@ -375,8 +381,10 @@ def oracle(c, obs):
                       "params": sorted(k for k in want if (obs["header"] or {}).get(k) != want[k])})
         return v
     if c["t"] == "opq":
-        if obs["r"] == "ok" and obs["got"] != obs["intended"]:
-            return [{"cls": "nested-roundtrip-differs", "fmt": c["fmt"], "param": c["param"]}]
+        if (obs["r"] == "ok" and obs["got"] != obs["intended"]) or (obs["r"] == "exc" and c["fmt"] == "urlencoded"):
+            # `deser`: the deserialiser the schema declares for the parameter (what a finding about one family of them is keyed by)
+            sp = classes()[c["cls"]].c_param[c["param"]]
+            return [{"cls": "nested-roundtrip-differs", "fmt": c["fmt"], "param": c["param"], "deser": getattr(sp[3], "__name__", None)}]
         return []
     if c["t"] != "cell":
         if c["t"] == "qs":
